@@ -7,6 +7,7 @@ import (
 	"io"
 	"os"
 	"reflect"
+	"slices"
 	"sort"
 	"strings"
 	"sync"
@@ -90,7 +91,8 @@ func RemovePackage(pkg *Package) {
 				break
 			}
 		}
-		for _, u := range pkg.Uses {
+		// Unuse removes from pkg.Uses so iterate over a copy.
+		for _, u := range slices.Clone(pkg.Uses) {
 			pkg.Unuse(u)
 		}
 		pkg.Name = ""
